@@ -13,7 +13,7 @@ pub fn def() -> PropDef {
         job_level,
         run_job,
         replay,
-        rule: "family T (tables): every ordered pair of sequences from the item grammar {a,b,c,S-a,S-b,S-(a b),O-(a b),O-(b a),O-(a b c),O-(b c)}^(1..2) plus plain sequences of length 3 (and, in thorough, ordered triples over the length-1/2 plain+chord subset): the real parser's accept/reject is compared with prefix-freeness computed over the documented token expansion (every permutation of every O- group), and on acceptance the trie entries (hook H4) must equal the expected expansion with the right virtual-key coordinate. family A (typing): 6 sequence sets x 3 input modes x 2 leader forms (sldr with defcfg mode / (sequence T mode) overriding a different defcfg mode); ALL unit histories of up to D units (6 for sldr / 5 for the sequence action in both tiers; thorough uses the larger gap set) over {leader tap, tap a, tap b, tap c, tap d(probe, in no sequence)} x gap-after in {T-3, T+4} (thorough adds 2), T=8; reference model of sequence mode (buffer of typed keys, exact match fires once, no-match/timeout cancels, mode-specific OS presses) predicts the exact order of OS presses; where the typed keys fail strictly but a proper suffix is still a prefix of a defined sequence (the implementation backtracks) either the strict-cancel or the suffix-backtracking prediction is accepted (class window). family B (chords in sequences): configs with S-(..) and O-(..) sequences; ALL physically consistent press/release histories of depth 6 (thorough 7) over {a,b,c,lsft} after a leader tap; strict token model for S- configs (histories where only a relaxed reading could match are skipped, class relaxed); for O- configs safety (at most one activation per leader, activation only if all keys of that sequence were pressed) on all histories plus canonical typings (every press order and release order of the group) must activate exactly once and non-overlapping typing must not. Always: nothing left pressed at the OS.",
+        rule: "family T (tables): every ordered pair of sequences from the item grammar {a,b,c,S-a,S-b,S-(a b),O-(a b),O-(b a),O-(a b c),O-(b c)}^(1..2) plus plain sequences of length 3 (and, in thorough, ordered triples over the length-1/2 plain+chord subset): the real parser's accept/reject is compared with prefix-freeness computed over the documented token expansion (every permutation of every O- group), and on acceptance the trie entries (hook H4) must equal the expected expansion with the right virtual-key coordinate. family A (typing): 6 sequence sets x 3 input modes x 2 leader forms (sldr with defcfg mode / (sequence T mode) overriding a different defcfg mode); ALL unit histories of up to D units (6 for sldr / 5 for the sequence action in both tiers; thorough uses the larger gap set) over {leader tap, tap a, tap b, tap c, tap d(probe, in no sequence)} x gap-after in {T-3, T+4} (thorough adds 2), T=8; reference model of sequence mode (buffer of typed keys, exact match fires once, no-match/timeout cancels, mode-specific OS presses) predicts the exact order of OS presses; where the typed keys fail strictly but a proper suffix is still a prefix of a defined sequence (the implementation backtracks) either the strict-cancel or the suffix-backtracking prediction is accepted (class window). family B (chords in sequences): configs with S-(..) and O-(..) sequences; ALL physically consistent press/release histories of depth 6 (thorough 7) over {a,b,c,lsft} after a leader tap; strict token model for S- configs (histories where only a relaxed reading could match are skipped, class relaxed); for O- configs safety (at most one activation per leader, activation only if all keys of that sequence were pressed) on all histories plus canonical typings (every press order and release order of the group) must activate exactly once and non-overlapping typing must not. Modifier sides: C-, S- and M- sequences typed with the left and with the right variant of the modifier activate exactly once. Always: nothing left pressed at the OS.",
         assumptions: &["timeout boundary (interval within 2 ms of the timeout) not exercised: gaps are chosen clear of it", "releases of keys whose press was hidden are ignored (documented BUG(sequences) in handle_keystate_changes; the property constrains presses)", "a leader pressed while a sequence is in progress restarts the attempt in hidden-suppressed mode and is ignored in the other modes (src/kanata/mod.rs SequenceLeader); the property does not constrain this, the model follows the code"],
         required_level,
         min_outcomes: 4,
@@ -634,6 +634,34 @@ fn run_b(i: usize, mode: Mode, depth: usize, st: &mut Stats, found: &mut Vec<Vio
             st.outcome(if fired.is_empty() { "overlap-none" } else { "overlap-fired" });
         }
     });
+    // modifier sides: a chorded sequence is typed with the left OR the right variant of its modifier
+    if i == 0 {
+        let mcfg = format!("(defcfg sequence-timeout 30 sequence-input-mode {})\n(defsrc l a b c lctl rctl lsft rsft lmet rmet lalt)\n(deflayer base sldr a b c lctl rctl lsft rsft lmet rmet lalt)\n(defvirtualkeys v1 x v2 y v3 z)\n(defseq v1 (C-a) v2 (S-b) v3 (M-c))\n", mode.name());
+        for (vk, key, mods) in [(0usize, "a", ["lctl", "rctl"]), (1, "b", ["lsft", "rsft"]), (2, "c", ["lmet", "rmet"])] {
+            for m in mods {
+                let hist = vec![Ev::P(kc("l")), Ev::T(1), Ev::R(kc("l")), Ev::T(2), Ev::P(kc(m)), Ev::T(2), Ev::P(kc(key)), Ev::T(2), Ev::R(kc(key)), Ev::T(2), Ev::R(kc(m)), Ev::T(40)];
+                crate::par::announce(&mcfg, &hist);
+                let Ok(mut sm) = Sim::new(&mcfg) else {
+                    found.push(mk_violation("C12", format!("{sig_base}/mod-sides-rejected"), "config rejected".into(), "history", &mcfg, &hist, json!({})));
+                    break;
+                };
+                st.evaluations += 1;
+                if let Err(e) = sm.run(&hist) {
+                    found.push(mk_violation("C12", format!("chords/mod-sides/{}", panic_signature(&e)), e.chars().take(300).collect(), "history", &mcfg, &hist, json!({})));
+                    continue;
+                }
+                let got = downs(&sm.trace());
+                let n = got.iter().filter(|k| k.as_str() == VKOUT[vk]).count();
+                // hidden modes: the typed key itself must not be pressed at the OS
+                let typed_leak = mode != Mode::VB && got.iter().any(|k| k.as_str() == key.to_uppercase());
+                st.validated += 1;
+                st.outcome("mod-sides");
+                if (n != 1 || typed_leak) && !found.iter().any(|f| f.signature == format!("chords/mod-sides/{}", mode.name())) {
+                    found.push(mk_violation("C12", format!("chords/mod-sides/{}", mode.name()), format!("sequence typed with {m} held, then {key}: v{} activated {n} times, typed key pressed at the OS: {typed_leak}; OS presses {got:?}", vk + 1), "history", &mcfg, &hist, json!({})));
+                }
+            }
+        }
+    }
     // canonical typings for O- configs
     if !b.strict {
         for (v, s) in b.seqs.iter() {
@@ -924,6 +952,17 @@ fn replay(d: &serde_json::Value) -> Vec<Violation> {
                 }
             }
         }
+    }
+    if cfg.contains("(defseq v1 (C-a) v2 (S-b) v3 (M-c))") {
+        // modifier-sides scenarios live in the chord job of config 0
+        for mode in MODES {
+            if cfg.contains(mode.name()) {
+                let mut found = vec![];
+                run_b(0, mode, 2, &mut st, &mut found);
+                return found.into_iter().filter(|v| v.signature.contains("mod-sides")).collect();
+            }
+        }
+        return vec![];
     }
     for i in 0..BCFGS.len() {
         for (mi, mode) in MODES.iter().enumerate() {
